@@ -30,7 +30,8 @@ RULE = (
     "exclude 0), n_envs 1-3, a type-correct stack of 0-4 wrappers from {VecFrameStack(n_stack 1-5, channels_order "
     "None/first/last/per-key dict), VecTransposeImage(skip or not), VecExtractDictObs, VecMonitor, VecCheckNan}, "
     "base VecEnv DummyVecEnv (float32 rewards) / a float64-reward DummyVecEnv variant and SubprocVecEnv (rewards not "
-    "representable in float32), per-env episode scripts (length-1 episodes, terminated and/or truncated, never ending, "
+    "representable in float32), optionally a base that auto-resets WITHOUT reporting terminal_observation and/or "
+    "sub-environments that reuse one info dict object, per-env episode scripts (length-1 episodes, terminated and/or truncated, never ending, "
     "...), a history of "
     "reset()/step() calls incl. resets in mid-episode; every returned observation, reward, done, info entry and the "
     "declared observation space are compared with the Lean model (exactly) and with the specification-level reference. "
@@ -116,8 +117,8 @@ def enc(kind, env_id, episode, step):
 class WEnv(ScriptedEnv):
     """ScriptedEnv (script-driven rewards/terminations, call log) with the observation kinds of this property"""
 
-    def __init__(self, env_id=0, kind="vec", script=None):
-        super().__init__(env_id=env_id, obs_kind="box1", act_kind="discrete", script=script)
+    def __init__(self, env_id=0, kind="vec", script=None, info_mode="fresh"):
+        super().__init__(env_id=env_id, obs_kind="box1", act_kind="discrete", script=script, info_mode=info_mode)
         self.kind = kind
         self.observation_space = space_of(kind)
 
@@ -156,6 +157,23 @@ def make_f64_vecenv(fns):
             return (self._obs_from_buf(), rews, np.copy(self.buf_dones), deepcopy(self.buf_infos))
 
     return F64DummyVecEnv(fns)
+
+
+def make_no_terminal(venv):
+    """a vectorised environment that auto-resets but does NOT report `terminal_observation` (gym3 / procgen style):
+    a pass-through layer right above the base VecEnv that removes the key from every info dictionary"""
+    from stable_baselines3.common.vec_env.base_vec_env import VecEnvWrapper
+
+    class NoTerminalVecEnv(VecEnvWrapper):
+        def reset(self):
+            return self.venv.reset()
+
+        def step_wait(self):
+            obs, rews, dones, infos = self.venv.step_wait()
+            infos = [{k: v for k, v in info.items() if k != "terminal_observation"} for info in infos]
+            return obs, rews, dones, infos
+
+    return NoTerminalVecEnv(venv)
 
 
 def base_of(case):
@@ -290,6 +308,13 @@ def gen_case(rng, widen=False, thorough=False, no_finding_kinds=False):
             ops.append("reset")
         ops.append("step")
     case = {"kind": kind, "n_envs": n_envs, "wrappers": ws, "scripts": scripts, "ops": ops}
+    # a base VecEnv that auto-resets without reporting terminal_observation (the wrappers must still start the next
+    # episode from an empty window and must not invent the key), and sub-environments that reuse ONE info dict object
+    # (keys written by the library — terminal_observation, TimeLimit.truncated — then survive into later steps)
+    if rng.chance(0.2):
+        case["no_terminal"] = True
+    if rng.chance(0.12):
+        case["info_reuse"] = True
     base = rng.weighted([("dummy", 80), ("f64", 19), ("subproc", 4 if thorough else 1)])
     if base != "dummy":
         case["base"] = base
@@ -328,6 +353,11 @@ def shrink_candidates(case):
         c = dict(case)
         c["ops"] = ops[:-1]
         yield c
+    for flag in ("info_reuse", "no_terminal"):
+        if case.get(flag):
+            c = dict(case)
+            c.pop(flag)
+            yield c
     if base_of(case) == "subproc":
         c = dict(case)
         c.pop("subproc", None)
@@ -579,12 +609,15 @@ def run_impl(case):
     from stable_baselines3.common.vec_env import DummyVecEnv, SubprocVecEnv
 
     n = case["n_envs"]
-    fns = [WEnvFn(env_id=i, kind=case["kind"], script=case["scripts"][i]) for i in range(n)]
+    fns = [WEnvFn(env_id=i, kind=case["kind"], script=case["scripts"][i],
+                  info_mode="reuse" if case.get("info_reuse") else "fresh") for i in range(n)]
     with warnings.catch_warnings():
         warnings.simplefilter("ignore")
         kind_of_base = base_of(case)
         base = (SubprocVecEnv(fns, start_method="fork") if kind_of_base == "subproc"
                 else make_f64_vecenv(fns) if kind_of_base == "f64" else DummyVecEnv(fns))
+        if case.get("no_terminal"):
+            base = make_no_terminal(base)
         try:
             spy = install_spy(base, n)
             base_space = base.observation_space
@@ -757,7 +790,9 @@ def oracle(ctx, case, impl):
                 rep.violation("terminal_observation present/absent differs from the base VecEnv", case,
                               dict(sig0, kind="terminal_presence"), where)
                 return
-            if got["term"] is not None and not same_obs(got["term"], exp["term"]):
+            # a terminal_observation on a step that does not end the episode can only be a stale entry of a reused
+            # info dict: it is passed along (presence checked above, exact values by the model correspondence)
+            if b["done"] and got["term"] is not None and not same_obs(got["term"], exp["term"]):
                 rep.violation("terminal_observation did not get the transformation given to ordinary observations", case,
                               dict(sig0, kind="terminal"),
                               dict(where, impl=obs_j_safe(got["term"]), expected=obs_j_safe(exp["term"])))
@@ -768,7 +803,7 @@ def oracle(ctx, case, impl):
                               dict(sig0, kind="not_in_space", cause=diagnose_not_in_space(case, declared, desc, got["obs"]),
                                    base=case["kind"]),
                               dict(where, obs=obs_j_safe(got["obs"]), space=str(declared)))
-            if got["term"] is not None and not got["term_in"] and not space_reported:
+            if b["done"] and got["term"] is not None and not got["term_in"] and not space_reported:
                 space_reported = True
                 rep.violation("terminal_observation is not in the declared observation space", case,
                               dict(sig0, kind="not_in_space", cause=diagnose_not_in_space(case, declared, desc, got["term"]),
@@ -861,6 +896,10 @@ def check_cases(ctx, cases):
         rep.count(f"n_envs={case['n_envs']}")
         rep.count(f"stack_len={len(ws)}")
         rep.count("vecenv:" + base_of(case))
+        if case.get("no_terminal"):
+            rep.count("base_without_terminal_observation")
+        if case.get("info_reuse"):
+            rep.count("sub_envs_reuse_info_dict")
         for w in ws:
             rep.count("w:" + w["w"] + ("(skip)" if w.get("skip") else ""))
             if w["w"] == "frameStack":
